@@ -377,6 +377,47 @@ func drawLog(t *rapid.T, name string, idx uint64, hp *HashPool, maxRec int, exac
 	return l, true
 }
 
+// DrawFillingLog draws an update entry of random bytes (fresh hashes, noise message) whose
+// encoded size fills a block of blockSize bytes up to slack bytes, when it is the only
+// record of that block: the zlib stream of such a block is longer than the block, which
+// sends the reader into its read-more path. blockSize counts what the record may use
+// together with the 4-byte block header and its 5-byte restart table.
+func DrawFillingLog(t *rapid.T, name string, idx uint64, hs int, blockSize int, exact bool, slack int) (Log, bool) {
+	l := Log{Name: Str(name), Idx: idx}
+	l.Old = rapid.SliceOfN(rapid.Byte(), hs, hs).Draw(t, "fold")
+	l.New = rapid.SliceOfN(rapid.Byte(), hs, hs).Draw(t, "fnew")
+	l.Who = Str(rapid.SampledFrom([]string{"", "A U Thor", "c"}).Draw(t, "fwho"))
+	l.Email = Str(rapid.SampledFrom([]string{"", "a@example.com"}).Draw(t, "femail"))
+	l.Time = rapid.Uint64().Draw(t, "ftime")
+	l.TZ = int16(rapid.IntRange(-32768, 32767).Draw(t, "ftz"))
+	vl := func(v uint64) int { return len(putVarint(v)) }
+	fixed := 1 + vl(uint64(len(name)+9)<<3|1) + len(name) + 9 + 2*hs + vl(uint64(len(l.Who))) + len(l.Who) +
+		vl(uint64(len(l.Email))) + len(l.Email) + vl(l.Time) + 2
+	target := blockSize - 9 - slack
+	m := -1
+	for cand := target - fixed - 1; cand >= target-fixed-4 && cand >= 2; cand-- {
+		if fixed+vl(uint64(cand))+cand == target {
+			m = cand
+			break
+		}
+	}
+	if m < 2 {
+		return l, false
+	}
+	b := rapid.SliceOfN(rapid.Byte(), m, m).Draw(t, "fnoise")
+	if !exact {
+		// the writer would normalise the message: keep it in normal form (one final newline)
+		for i := range b {
+			if b[i] == '\n' {
+				b[i] = 'n'
+			}
+		}
+		b[m-1] = '\n'
+	}
+	l.Msg = Str(b)
+	return l, true
+}
+
 // TableOpts steers the table generator.
 type TableOpts struct {
 	MaxRefs, MaxLogs int
